@@ -175,7 +175,7 @@ CHECKS = {
              "below F; every field, collection name, event time and offset compared with what was sent. "
              "non-trivial = >=2 vBuckets, >=1 delivered and >=1 filtered event, >=2 snapshots on some vBucket",
         assumptions=HIST_ASSUME[:1] + [HIST_ASSUME[2], "Layer A emulates gocbcore's decode-and-dispatch (dcpcomponent.go); the wire path is exercised in C08/C02 on the simulated node"],
-        units=[rapid("TestC03_Delivery", 6000, 500000)],
+        units=[rapid("TestC03_Delivery", 6000, 500000), rapid("TestC03_RebalanceHistory", 1500, 100000)],
         min_share=dict(any={"filtered_skip_until": ["cases", 0.15], "filtered_reserved_key": ["cases", 0.3], "multi_snapshot": ["cases", 0.5],
                             "filtered_catchup": ["cases", 0.25], "catchup_at_snapshot_start": ["cases", 0.05],
                             "stream_ended_and_requested_again": ["cases", 0.2]}),
